@@ -233,7 +233,23 @@ def _gen_revert(rng):
         ok = [e["n"] for e in es if e["wv"] or e["target"] is not None]
         if ok:
             sel = sorted(rng.sample(ok, rng.randint(1, len(ok))))
-    return {"kind": "revert", "names": es, "sel": sel, "backups": rng.random() < 0.65}
+    inp = {"kind": "revert", "names": es, "sel": sel, "backups": rng.random() < 0.65}
+    r = rng.random()
+    if r < 0.12:
+        # Ctrl-C during the apply phase of the transform
+        inp["interrupt"] = rng.randint(1, 6)
+    elif r < 0.24:
+        # a name within a few bytes of NAME_MAX: the backup / .moved name may be refused by the file system
+        e = rng.choice(es)
+        old = e["n"]
+        stem = rng.choice(["x", "é"])
+        L = rng.choice([249, 250, 251, 252, 253, 254, 255])
+        new = (stem * NAME_MAX).encode("utf-8")[:L].decode("utf-8", "ignore")
+        new = new + "y" * (L - len(new.encode("utf-8")))
+        e["n"] = new
+        if sel is not None:
+            inp["sel"] = sorted(new if n == old else n for n in sel)
+    return inp
 
 
 def _gen_remove(rng):
@@ -336,6 +352,10 @@ def _gen_merge(rng, cmd):
     sid = rng.random() < 0.5
     rp, sb = (rng.random() < 0.3, rng.random() < 0.3) if cmd == "merge" else (False, False)
     rename = then = None
+    if rng.random() < 0.1:
+        c = merge_case(cmd, base, this, other, tv, sid, rp, sb)
+        c["interrupt"] = rng.randint(1, 5)
+        return c
     if rng.random() < 0.45:
         # sequences: the incoming change renames / moves the file (mostly without touching its text), and / or a
         # revert follows the merge-like command
@@ -393,6 +413,17 @@ def corpus():
     # regression (repaired cd17d15): revert to an older tree of a regular file that replaced a versioned symlink
     out.append({"kind": "revert", "names": [spec("a", L("t1"), disk=F(b"USER FILE REPLACING LINK\n")),
                                             spec("b", F(b"y2\n"), F(b"y\n"))], "sel": None, "backups": True})
+    # Ctrl-C (KeyboardInterrupt) at each rename of the apply phase: the tree must be as before
+    for k in (1, 2, 3, 4):
+        out.append({"kind": "revert", "names": [spec("a", F(b"one\n"), disk=F(b"EDIT\n")), spec("b", F(b"g\n"), disk=None)],
+                    "sel": None, "backups": True, "interrupt": k})
+    # names within a few bytes of NAME_MAX: a.~1~ / a.moved cannot be created (ENAMETOOLONG)
+    for ln in (250, 251, 252, 255):
+        nm = "x" * ln
+        out.append({"kind": "revert", "names": [spec(nm, F(b"one\n"), disk=F(b"EDIT\n"))], "sel": None, "backups": True})
+        out.append({"kind": "revert", "names": [spec(nm, F(b"one\n"), wv=False, disk=F(b"EDIT\n"))], "sel": None,
+                    "backups": True})
+    out.append({"kind": "revert", "names": [spec("é" * 126, F(b"one\n"), disk=F(b"EDIT\n"))], "sel": None, "backups": True})
     # existing backups: the next free number is taken (two digits too)
     for k in (1, 2, 9, 10, 11):
         es = [spec("a", F(b"one\n"), disk=F(b"EDIT\n"))]
@@ -450,6 +481,11 @@ def corpus():
         out.append(merge_case(cmd, B3, T3, B3, rename="d/f", then="revert_f"))
     out.append(merge_case("pull", B3, T3, [b"line 1\n", b"line 2\n", b"line 3 theirs\n"], rename="g", then="revert"))
     out.append(merge_case("update", B3, T3, [b"line 1\n", b"line 2\n", b"line 3 theirs\n"], then="revert"))
+    for cmd in CMDS:
+        for k in (1, 2, 3):
+            c = merge_case(cmd, B3, T3, [b"line 1\n", b"line 2\n", b"line 3 theirs\n"])
+            c["interrupt"] = k
+            out.append(c)
     # both sides add the same text under different file ids: "f" is OTHER's file (written by the merge), the local one
     # is f.moved
     out.append(merge_case("switch", None, [b"c\n", b"b\n"], [b"c\n", b"b\n"], sid=False))
@@ -647,6 +683,34 @@ def _obs_state(wt, inp):
     return [[_node_at(root, n) for n in u], len(top), ver, [n in mm for n in u]]
 
 
+class _Interrupt:
+    """raise KeyboardInterrupt (a BaseException that is not an Exception: Ctrl-C) instead of performing the k-th
+    rename of a tree transform's apply phase (_FileMover.rename: into limbo, out of limbo, into pending-deletion)"""
+
+    def __init__(self, k):
+        self.k = k
+        self.n = 0
+
+    def __enter__(self):
+        from breezy import transform as _t
+        self.cls = _t._FileMover
+        self.orig = self.cls.rename
+        if self.k:
+            me = self
+
+            def rename(mover, from_, to):
+                me.n += 1
+                if me.n == me.k:
+                    raise KeyboardInterrupt()
+                return me.orig(mover, from_, to)
+            self.cls.rename = rename
+        return self
+
+    def __exit__(self, *a):
+        self.cls.rename = self.orig
+        return False
+
+
 def _impl_tree(inp):
     from breezy import errors
     wt, r1 = _build(inp)
@@ -658,7 +722,8 @@ def _impl_tree(inp):
     try:
         if kind in ("revert", "tt"):
             target = wt.branch.repository.revision_tree(r1)
-            cs = wt.revert(inp["sel"], old_tree=target, backups=inp["backups"])
+            with _Interrupt(inp.get("interrupt")):
+                cs = wt.revert(inp["sel"], old_tree=target, backups=inp["backups"])
             conf = sorted([c.typestring, c.path] for c in cs)
         elif kind == "remove":
             wt.remove(list(inp["files"]), keep_files=inp["keep"], force=inp["force"])
@@ -667,6 +732,10 @@ def _impl_tree(inp):
             _unc.uncommit(wt.branch, tree=wt)
     except (errors.BzrError, AssertionError, OSError) as e:
         err = type(e).__name__
+    except KeyboardInterrupt:
+        if not inp.get("interrupt"):
+            raise
+        err = "KeyboardInterrupt"
     except Exception as e:
         if type(e).__name__ != "InvalidURL":
             raise
@@ -753,7 +822,9 @@ def _impl_merge(inp):
         wt.unversion(["f"])
     before = _walk(wd)
     err = None
+    intr = _Interrupt(inp.get("interrupt"))
     try:
+      with intr:
         if cmd == "merge":
             with wt.lock_write():
                 mg = _m.Merger.from_revision_ids(wt, r2, other_branch=ob.branch)
@@ -769,6 +840,10 @@ def _impl_merge(inp):
             _sw.switch(wt.controldir, ob.branch, quiet=True)
     except _m.CantReprocessAndShowBase:
         err = "CantReprocessAndShowBase"
+    except KeyboardInterrupt:
+        if not inp.get("interrupt"):
+            raise
+        err = "KeyboardInterrupt"
     after = _walk(wd)
     wt = WorkingTree.open(wd)
     files = dict((p, c) for p, c in after)
@@ -923,13 +998,22 @@ def quirky(inp):
                for e in inp.get("names", []))
 
 
+NAME_MAX = 255
+
+
+def longnames(inp):
+    """a name so long that <name>.~1~ or <name>.moved exceeds NAME_MAX bytes: the file system refuses the rename
+    (ENAMETOOLONG); not part of the model -> oracle only (a refused command must leave the tree unchanged)"""
+    return any(len(_b(e["n"])) + 6 > NAME_MAX for e in inp.get("names", []))
+
+
 def _key(inp):
     return repr(sorted((k, repr(v)) for k, v in inp.items()))
 
 
 def model_term(inp):
     k = inp["kind"]
-    if quirky(inp) or _cache.get(_key(inp)) == "skip":
+    if quirky(inp) or _cache.get(_key(inp)) == "skip" or inp.get("interrupt") or longnames(inp):
         return None
     if k == "store":
         ops = []
@@ -939,7 +1023,7 @@ def model_term(inp):
             else:
                 ops.append(f"(OSwitch {coq_bool(st[1])} {coq_bool(st[2])})")
         return f"run_store {coq_names(['f', 'n'])} {coq_list(ops)}"
-    if k == "merge" and (inp.get("rename") or inp.get("then")):
+    if k == "merge" and (inp.get("rename") or inp.get("then") or inp.get("interrupt")):
         return None
     if k == "merge":
         o = f"{{| o_reprocess := {coq_bool(inp['reprocess'])}; o_show_base := {coq_bool(inp['show_base'])} |}}"
